@@ -199,7 +199,7 @@ func c27Record(t *testing.T, dir string, rnd *vRand, name string, partMs, segMs 
 	for _, p := range created {
 		g, err := c27ReadSeg(p, false)
 		if err != nil {
-			t.Fatalf("%s: %v", p, err)
+			g = &c27OSeg{Path: filepath.Base(p), Err: err.Error()}
 		}
 		obs.Segs = append(obs.Segs, *g)
 		if segs[p].Complete {
